@@ -162,6 +162,15 @@ asm_probe:
     s += r"""
         ret
         .size asm_probe, .-asm_probe
+        # A relaxable GOT-indirect jump that is the LAST instruction of its input section: the
+        # window a relaxation may rewrite ends exactly at the end of the section.
+        .section .text.asm_tail,"ax",@progbits
+        .globl asm_tail
+        .hidden asm_tail
+        .type asm_tail,@function
+asm_tail:
+        jmp *fb@GOTPCREL(%rip)
+        .size asm_tail, .-asm_tail
         .section .rodata.asm,"a",@progbits
         .globl asm_tab
         .hidden asm_tab
@@ -171,6 +180,7 @@ asm_tab:
         .long hid - .
         .long fh - .
         .long asm_local - .
+        .long asm_tail - .
         .size asm_tab, .-asm_tab
         .data
         .type asm_local,@object
